@@ -671,6 +671,12 @@ def run_fit(f, session=None):
             rec["live_id"] = str(Identifier(lst))
     except BaseException as e:  # noqa
         rec["live_id_exc"] = exc_name(e)
+    # tokens of the live search and of the live model, each on its own (oracle values for the identifier model)
+    try:
+        rec["search_tokens"] = list(Identifier(search).hash_list)
+        rec["model_tokens"] = list(Identifier(model).hash_list)
+    except BaseException as e:  # noqa
+        rec["tokens_exc"] = exc_name(e)
     rec["prior_count"] = model.prior_count
     rec["model"] = canon_model(model)
     try:
